@@ -558,7 +558,8 @@ class Prov:
                 pass
             if m in ("reduce",):
                 self._operand(body, t.args[0], (("item",),) + tuple(p), ctx, out, seen)
-            if not got_closure:
+            if not got_closure or m in ("map_err", "or_else", "unwrap_or_else", "ok_or_else", "inspect", "inspect_err"):
+                # the closure only supplies the error / fallback alternative: the payload is the receiver's
                 self._operand(body, t.args[0], path, ctx, out, seen)
             return
         if m in FILTER_LIKE and t.args:
